@@ -16,3 +16,13 @@ func MemDB() *badger.DB {
 	}
 	return db
 }
+
+// MemDBBig opens an in-memory Badger with the default table size, so that a single write may be as large as the
+// server's store accepts (Badger limits a transaction to 15 % of the table size: 9.6 MB with the default 64 MB tables).
+func MemDBBig() *badger.DB {
+	db, err := badger.Open(badger.DefaultOptions("").WithInMemory(true).WithLogger(nil).WithNumMemtables(2).WithCompactL0OnClose(false))
+	if err != nil {
+		panic(fmt.Sprintf("harness: cannot open in-memory badger: %v", err))
+	}
+	return db
+}
